@@ -1,3 +1,3 @@
--- This module serves as the root of the `Cell2v` library.
--- Import modules here that should be built as part of the library.
-import Cell2v.Basic
+-- Root of the `Cell2v` library.  Property modules are built by name
+-- (`lake build Cell2v.Props.Cxx modeld_cxx`); see bin/setup and bin/check.
+import Cell2v.Audit
